@@ -88,6 +88,9 @@ pub struct Node {
     pub large: bool,
     pub parts: Vec<Part>,
     pub spare: Vec<u8>,
+    /// identity used while applying layout transformations (0 = unassigned)
+    #[serde(default)]
+    pub tag: u32,
 }
 
 #[derive(Clone, Debug, Serialize, Deserialize, PartialEq, Eq)]
@@ -98,19 +101,19 @@ pub enum Part {
 
 impl Node {
     pub fn leaf(typ: &str, payload: Vec<u8>) -> Node {
-        Node { typ: cc(typ), large: false, parts: vec![Part::Raw(payload)], spare: vec![] }
+        Node { typ: cc(typ), large: false, parts: vec![Part::Raw(payload)], spare: vec![], tag: 0 }
     }
     pub fn leaf_cc(typ: Cc, payload: Vec<u8>) -> Node {
-        Node { typ, large: false, parts: vec![Part::Raw(payload)], spare: vec![] }
+        Node { typ, large: false, parts: vec![Part::Raw(payload)], spare: vec![], tag: 0 }
     }
     pub fn container(typ: &str, children: Vec<Node>) -> Node {
-        Node { typ: cc(typ), large: false, parts: children.into_iter().map(Part::Child).collect(), spare: vec![] }
+        Node { typ: cc(typ), large: false, parts: children.into_iter().map(Part::Child).collect(), spare: vec![], tag: 0 }
     }
     /// raw prefix (e.g. FullBox header / sample entry fields) followed by children
     pub fn mixed(typ: &str, prefix: Vec<u8>, children: Vec<Node>) -> Node {
         let mut parts = vec![Part::Raw(prefix)];
         parts.extend(children.into_iter().map(Part::Child));
-        Node { typ: cc(typ), large: false, parts, spare: vec![] }
+        Node { typ: cc(typ), large: false, parts, spare: vec![], tag: 0 }
     }
     pub fn header_len(&self) -> u64 {
         if self.large {
@@ -719,7 +722,7 @@ pub fn enc_data(type_code: u32, locale: u32, payload: &[u8]) -> Vec<u8> {
 }
 
 pub fn node_ilst_item(typ: Cc, type_code: u32, payload: &[u8]) -> Node {
-    Node { typ, large: false, parts: vec![Part::Child(Node::leaf("data", enc_data(type_code, 0, payload)))], spare: vec![] }
+    Node { typ, large: false, parts: vec![Part::Child(Node::leaf("data", enc_data(type_code, 0, payload)))], spare: vec![], tag: 0 }
 }
 
 /// deterministic non-zero payload byte j of sample k (0-based) of track t
